@@ -793,10 +793,58 @@ def rule_search_add(P):
     return r
 
 
+def rule_setport(P):
+    """the default port of a nameserver given without one: sockaddr_setport / sockaddr_getport, both families, network byte order (siblings must agree)"""
+    from ..interp import normx, nkey, run_all
+    r = Rule("C39-setport", "K7/K6", "sockaddr_setport stores the port in network byte order for IPv4 and IPv6 alike, sockaddr_getport reads it back; other families are left alone", floor=6)
+    f, g = P.fn("sockaddr_setport"), P.fn("sockaddr_getport")
+    swap = lambda v: ((v & 0xff) << 8) | ((v >> 8) & 0xff)
+
+    def hook(el, e_):
+        n = callee_name(el.e)
+        if n in ("htons", "ntohs", "__bswap_16", "__builtin_bswap16", "__uint16_identity"):
+            try:
+                v = evalx(normx(el.e[2][0]), e_, P)
+            except EvalError:
+                return "impure"
+            return swap(v) if n != "__uint16_identity" else v
+        return None
+    FLD = {2: "sockaddr_in.sin_port", 10: "sockaddr_in6.sin6_port"}
+    for fam in (2, 10, 1):
+        for port in (53, 5353, 0x3500):
+            env = {f.params[0][0]: PPtr("sa"), ("@", "sa", "#zero"): 1, ("@", "sa", "sockaddr.sa_family"): fam, f.params[1][0]: port}
+            outs = [o for o in run_all(f, (f.entry, 0), env, lambda el: False, P, hook, max_steps=100) if not (o.kind == "exit" and o.why == "noreturn")]
+            for o in outs:
+                if o.kind not in ("ret", "exit"):
+                    r.brk("sockaddr_setport(family %d): %s %s" % (fam, o.kind, o.why))
+                    return r
+                stored = {k[2]: v for k, v in o.env.items() if isinstance(k, tuple) and len(k) == 3 and k[0] == "@" and k[1] == "sa" and "port" in str(k[2])}
+                want = {FLD[fam]: swap(port)} if fam in FLD else {}
+                r.inst(("set", fam, port), {"family": fam, "port": port, "stored": {k: v for k, v in stored.items()}})
+                if stored != want:
+                    r.bad("K7:sockaddr_setport:byte-order", "%s:%d" % (f.file, f.line), f.name,
+                          "family %d, port %d: stores %s, expected %s (network byte order in the port field of that family; the IPv4 and IPv6 branches must agree - a nameserver given without "
+                          "a port would be asked on port %d)" % (fam, port, stored, want, swap(port)))
+                    continue
+                if fam in FLD:
+                    env2 = {g.params[0][0]: PPtr("sa"), ("@", "sa", "#zero"): 1, ("@", "sa", "sockaddr.sa_family"): fam, ("@", "sa", FLD[fam]): swap(port)}
+                    for o2 in run_all(g, (g.entry, 0), env2, lambda el: False, P, hook, max_steps=100):
+                        if o2.kind != "ret":
+                            continue
+                        try:
+                            back = evalx(normx(o2.at.e[1]), o2.env, P)
+                        except EvalError:
+                            back = None
+                        r.inst(("get", fam, port), {"family": fam, "stored": swap(port), "read_back": back})
+                        if back != port:
+                            r.bad("K7:sockaddr_getport:byte-order", "%s:%d" % (g.file, g.line), g.name, "family %d: reads %r from a field holding port %d in network byte order" % (fam, back, port))
+    return r
+
+
 def run(ctx, config):
     P = ctx.prog(UNITS, config)
     rules = []
-    for mk in (rule_table, rule_names, rule_options, rule_lines, rule_search_add, rule_hosts, rule_files, rule_readfile, rule_inflight_table):
+    for mk in (rule_table, rule_names, rule_options, rule_lines, rule_search_add, rule_hosts, rule_files, rule_readfile, rule_inflight_table, rule_setport):
         try:
             rules.append(mk(P))
         except AnalysisBroken as ex:
